@@ -150,6 +150,28 @@ def forbidden_tokens(files=None):
     return hits
 
 
+def dep_closure(mods):
+    """Source files (relative to coq/) in the dependency closure of the given GV modules, found by reading the
+    `Require` commands (multi-line, `From GV Require …` or `Require … GV.A.B`).  Conservative: an unknown
+    name is ignored, a name that matches a file of the development is followed."""
+    have = set(coq_sources())
+    seen, todo = [], [vo_target(m)[:-1] for m in mods]      # X/Y.vo -> X/Y.v
+    while todo:
+        f = todo.pop()
+        if f in seen or f not in have:
+            continue
+        seen.append(f)
+        src = strip_comments(open(os.path.join(COQ, f)).read())
+        for m in re.finditer(r"(From\s+GV\s+)?Require\s+(?:Import\s+|Export\s+)?([^.]*(?:\.[A-Za-z_][^.]*)*?)\.(?=\s)", src, re.S):
+            for name in m.group(2).split():
+                if name.startswith("GV."):
+                    name = name[3:]
+                elif not m.group(1):
+                    continue
+                todo.append(name.replace(".", "/") + ".v")
+    return sorted(seen)
+
+
 def read_statements(prop):
     """props/<prop>.statements: entries `name : statement.` separated by blank lines."""
     p = os.path.join(ROOT, "props", prop + ".statements")
@@ -231,7 +253,13 @@ def proof_status(prop, requires, extra_files=None):
             res["failures"].append("theorem %s depends on axioms outside the allow-list: %s" % (name, bad))
         else:
             res["discharged"] += 1
-    hits = forbidden_tokens()
+    # the files the property's theorems depend on (their dependency closure); the whole tree is scanned
+    # in the thorough tier (files of other properties cannot weaken this property's theorems)
+    scope = dep_closure(requires)
+    if os.environ.get("VERIF_TIER") == "thorough" or os.environ.get("GV_SCAN_ALL"):
+        scope = None
+    res["scanned_files"] = len(scope) if scope is not None else len(coq_sources())
+    hits = forbidden_tokens(scope)
     if hits:
         res["failures"].append("forbidden tokens in the development: " + "; ".join(hits[:10]))
         res["discharged"] = 0
